@@ -159,7 +159,8 @@ func (p *parser) nextCtl(offset int) ([]byte, int, bool) {
 	}
 	i := bytes.IndexAny(p.body[offset:], "\n\r")
 	if i == -1 {
-		return p.body[offset:], offset, false
+		// The last line has no line terminator, but it is cut like every other line.
+		i = len(p.body) - offset
 	}
 	ctl := p.body[offset : offset+i]
 	if j := bytes.IndexByte(ctl, '{'); j > 0 && ctl[j-1] != '.' {
